@@ -6,6 +6,14 @@ VERIF = os.path.dirname(os.path.dirname(os.path.abspath(__file__)))
 
 # id -> (category, technique, text, note)
 CLAIMS = {
+    'C01': ('other',
+            'static analysis: exact static expansion of the opcode table into decode-trie units compared with an independently authored IA-32 opcode map (ref/ia32_opcodes.ref); def-use of the length/bytes/offset stores; mode-selector table for every operand fetch of _dis',
+            'Decides, for all 700+ architectural units of the opcode table (opcode bytes x /digit | +r | +cc, the four mandatory-prefix variants of MMX/SSE rows), that mnemonic, operand '
+            'signature (r/m vs reg order, byte/word/operand-size width, sign-extended imm8, fixed immediates, accumulator/CL/DX/segment/moffs operands, x87 memory width), store direction '
+            'and imm8 presence are those of IA-32; that no two rows claim one cell; that self.l/self.b/self.offset are the consumed window; that ModRM/displacement/moffs are sized by the '
+            'address size and immediates/relative targets/registers by the operand size; that get_afs reads each displacement token with its own format and byte count.',
+            'Not decided: contents of the ModRM/SIB tables built by init_pre_modrm at run time, the register file chosen per SSE row inside _dis (e.g. 66 0F D6 with mod=3), rendering by '
+            '__str__/dict_to_ad. The ref is trusted (authored from the SDM; disagreements found while authoring were triaged against gdb/objdump knowledge: 2 typos fixed, 1 known finding).'),
     'C02': ('other',
             'static analysis: narrowing-site classification over the assembly closure (dominance of the range check whose size token equals the narrowing), interval extraction of check_imm_size, mode-variable consistency',
             'Decides the "never silently truncated" clause: every fixed-width cast / mask applied to an operand value in the Intel and AT&T assembly closure is a literal, the parsers\' '
